@@ -1,12 +1,36 @@
 #!/bin/bash
-# Build /repo (or $1) with its own CMake build and run the unit tests; report failing gtest cases
-# other than the four the baseline marks as flaky. Exit 0 iff none.
+# run_baseline.sh [repo-dir]
+# Build the repository's own unit tests and run them; report failing gtest cases other than the ones the
+# baseline marks as flaky (TestIntegrate2DMC, TestMetropolis2D). Exit 0 iff none.
+# For /repo the existing CMake build in /repo/_build is used; for a scratch worktree the library and the
+# test executables are compiled directly (googletest cannot be fetched offline) into <dir>/_tbuild.
 R=${1:-/repo}
-B=$R/_build
-if [ ! -d "$B" ]; then cmake -G Ninja -S "$R" -B "$B" -DFETCHCONTENT_FULLY_DISCONNECTED=ON >/dev/null 2>&1 || { echo "cmake configure failed"; exit 2; }; fi
-cmake --build "$B" 2>&1 | tail -3 | grep -i "error\|FAILED" && { echo "BUILD FAILED"; exit 2; }
 fail=0
-for t in "$B"/tests/test_*; do
+if [ "$R" = "/repo" ]; then
+  B=$R/_build
+  out=$(cmake --build "$B" 2>&1) || { echo "$out" | tail -20; echo "BUILD FAILED"; exit 2; }
+  BIN=$B/tests
+else
+  BIN=$R/_tbuild; mkdir -p "$BIN/gen"
+  sed -e 's/@[A-Z_]*@/x/g' "$R/include/version.hpp.in" > "$BIN/gen/version.hpp"
+  pids=()
+  for s in "$R"/src/*.cpp; do
+    n=$(basename "$s" .cpp); [ "$n" = main ] && continue
+    g++ -std=c++14 -O2 -w -I"$R/include" -I"$BIN/gen" -c "$s" -o "$BIN/$n.o" & pids+=($!)
+  done
+  for t in "$R"/tests/test_*.cpp; do
+    n=$(basename "$t" .cpp)
+    g++ -std=c++14 -O2 -w -DGTEST_HAS_PTHREAD=1 -I"$R/include" -I"$BIN/gen" -I"$R/src" -isystem /usr/src/googletest/googletest/include -c "$t" -o "$BIN/$n.to" & pids+=($!)
+  done
+  for p in "${pids[@]}"; do wait $p || { echo "BUILD FAILED"; exit 2; }; done
+  ar rcs "$BIN/libphysica.a" "$BIN"/*.o
+  for t in "$BIN"/*.to; do
+    n=$(basename "$t" .to)
+    g++ "$t" "$BIN/libphysica.a" /repo/_build/lib/libgtest_main.a /repo/_build/lib/libgtest.a -lconfig++ -lpthread -o "$BIN/$n" || { echo "LINK FAILED"; exit 2; }
+  done
+fi
+for t in "$BIN"/test_*; do
+  case "$t" in *.to|*.o) continue;; esac
   [ -x "$t" ] || continue
   out=$(cd "$R/tests" && timeout 900 "$t" 2>&1)
   echo "$out" | grep -E "^\[  FAILED  \] [A-Za-z0-9_]+\.[A-Za-z0-9_]+" | sed 's/ (.*//' | sort -u | grep -v -E "TestIntegrate2DMC|TestMetropolis2D" && fail=1
